@@ -56,6 +56,16 @@ type c16Case struct {
 	TimeoutMs int        `json:"timeout"` // muxer data timeout (0 = none)
 	Yields    []c16Yield `json:"yields"`
 	Graceful  bool       `json:"graceful"` // network delivers (after healing), no Stop in the program, every end gets closed
+	// Preload: data written (on the still faithful network, before the program starts) that the peer leaves
+	// unread, so that the program's lifecycle operations meet tubes with buffered, not yet read data.
+	Preload []c16Pre `json:"preload,omitempty"`
+}
+
+type c16Pre struct {
+	Tube  int `json:"tube"`
+	Side  int `json:"side"`  // the WRITING side
+	Count int `json:"count"` // number of writes (messages on an unreliable tube)
+	N     int `json:"n"`     // bytes per write
 }
 
 var c16Points = []string{
@@ -79,6 +89,7 @@ type c16T struct {
 	roff     [2]int
 	closedAt [2]time.Duration // when a local Close call returned (0 = not yet)
 	closeErr [2][]error
+	eofSeen  [2]bool // a Read that started after the local close had returned has reported end-of-stream
 }
 
 type c16Run struct {
@@ -140,6 +151,10 @@ func (r *c16Run) doOp(op c16Op, tag string) {
 	r.mu.Lock()
 	r.pending[key] = r.now()
 	closedBefore := tb.closedAt[op.Side] > 0
+	// the local end is shut for good (a Close call or a Stop of this side's muxer has returned) / a Read that began
+	// after that has already reported end-of-stream
+	shutBefore := closedBefore || r.stopped[op.Side] > 0
+	eofBefore := tb.eofSeen[op.Side]
 	r.mu.Unlock()
 	defer func() {
 		r.mu.Lock()
@@ -186,7 +201,22 @@ func (r *c16Run) doOp(op c16Op, tag string) {
 				r.fail("C16:read-returns-foreign-message", "%s: a %d-byte message that the peer never wrote on this tube", key, n)
 			}
 		}
-		_ = err
+		// Unreliable tube whose local end is shut: nothing is admitted to its receive queue any more (white box:
+		// Unreliable.receive rejects under the lifecycle lock), so "buffered data, then end-of-stream" can be judged
+		// in the middle of a program, whatever else runs concurrently: end-of-stream must not be reported while
+		// messages are still queued, and once it has been reported no later Read may produce a message.
+		if ut, ok := tube.(*Unreliable); ok && shutBefore {
+			if n == 0 && err == io.EOF {
+				if left := len(ut.recv.C); left > 0 {
+					r.fail("C16:end-of-stream-before-buffered-data:unreliable", "%s: Read reported end-of-stream after the local end was shut although %d received messages were still buffered unread", key, left)
+				}
+				r.mu.Lock()
+				tb.eofSeen[op.Side] = true
+				r.mu.Unlock()
+			} else if n > 0 && eofBefore {
+				r.fail("C16:data-after-end-of-stream:unreliable", "%s: Read returned a %d-byte message although an earlier Read on this locally shut end had already reported end-of-stream", key, n)
+			}
+		}
 	case 2, 6: // close
 		err := tube.Close()
 		r.mu.Lock()
@@ -313,6 +343,30 @@ func c16Scenario(c c16Case, v *vlib.Verdict) {
 		} else {
 			<-t1.(*Unreliable).initiated
 			<-t2.(*Unreliable).initiated
+		}
+	}
+	// ---- preload: data the peer leaves unread (faithful network, delivered before the program starts)
+	for _, pl := range c.Preload {
+		ti := pl.Tube % len(r.tubes)
+		tb := r.tubes[ti]
+		side := pl.Side & 1
+		for k := 0; k < pl.Count; k++ {
+			var data []byte
+			if tb.t[side].IsReliable() {
+				data = vlib.Fill(c16Seed(ti, side), tb.woff[side]+pl.N)[tb.woff[side]:]
+			} else {
+				data = c16Msg(ti, side, tb.woff[side], pl.N)
+			}
+			n, err := tb.t[side].Write(data)
+			if err != nil {
+				v.Discard = true
+				return
+			}
+			if tb.t[side].IsReliable() {
+				tb.woff[side] += n
+			} else {
+				tb.woff[side]++
+			}
 		}
 	}
 	time.Sleep(10 * time.Millisecond)
@@ -472,6 +526,22 @@ func c16Scenario(c c16Case, v *vlib.Verdict) {
 		for ti, tb := range r.tubes {
 			for side := 0; side < 2; side++ {
 				done := make(chan string, 1)
+				if ut, ok := tb.t[side].(*Unreliable); ok {
+					go func() { done <- r.afterShutdownUnreliable(ut, ti, side) }()
+					select {
+					case msg := <-done:
+						if msg != "" {
+							key := msg
+							if i := strings.Index(key, ":"); i > 0 {
+								key = key[:i]
+							}
+							r.fail("C16:after-shutdown:"+strings.ReplaceAll(key, " ", "-")+":unreliable", "tube %d side %d (unreliable) after both muxers stopped: %s", ti, side, msg)
+						}
+					case <-time.After(30 * time.Second):
+						r.fail("C16:after-shutdown:call-blocks", "tube %d side %d: Write/Read after shutdown did not return within 30 s", ti, side)
+					}
+					continue
+				}
 				// bytes of the peer's stream that sit unread in this end's buffer (white box): they must all be
 				// returned, intact, before end-of-stream
 				buffered := -1
@@ -510,6 +580,13 @@ func c16Scenario(c c16Case, v *vlib.Verdict) {
 								r.mu.Lock()
 								r.v.Label("buffered-data-drained-after-shutdown")
 								r.mu.Unlock()
+							}
+							// end-of-stream is final
+							for k := 0; k < 3; k++ {
+								if n, _ := t.Read(buf); n > 0 {
+									done <- fmt.Sprintf("data after end-of-stream: a Read returned %d bytes after an earlier Read had reported end-of-stream", n)
+									return
+								}
 							}
 							done <- ""
 							return
@@ -577,6 +654,78 @@ func c16Scenario(c c16Case, v *vlib.Verdict) {
 	if len(c.Yields) > 0 {
 		v.Label("with-yield-schedule")
 	}
+}
+
+// afterShutdownUnreliable judges "after a tube is closed locally, writes fail and reads return buffered data and then
+// end-of-stream" on one end of an unreliable tube once both muxers are stopped and every program operation has
+// returned (nothing else touches the tube any more). White box: the messages that were received but not yet read sit
+// in the tube's receive queue; they are copied out (and put back in the same order) and then exactly those messages,
+// in that order, are demanded from Read before end-of-stream, and nothing after it. "" = fine.
+func (r *c16Run) afterShutdownUnreliable(ut *Unreliable, ti, side int) string {
+	if _, err := ut.Write(c16Msg(0, 0, 0, 16)); err == nil {
+		return "Write succeeded"
+	}
+	var snap [][]byte
+snapshot:
+	for {
+		select {
+		case m := <-ut.recv.C:
+			snap = append(snap, m)
+		default:
+			break snapshot
+		}
+	}
+	for _, m := range snap {
+		ut.recv.C <- m // capacity: they all came out of this queue
+	}
+	if len(snap) > 0 {
+		r.mu.Lock()
+		r.v.Label("unreliable-messages-buffered-at-shutdown")
+		r.mu.Unlock()
+	}
+	buf := make([]byte, 1<<16)
+	got := 0
+	for i := 0; i < len(snap)+2000; i++ {
+		n, err := ut.Read(buf)
+		if err == nil {
+			if got >= len(snap) {
+				return fmt.Sprintf("Read returns a message that was not buffered: %d messages were buffered unread, a further Read returned %d bytes", len(snap), n)
+			}
+			if !bytes.Equal(buf[:n], snap[got]) {
+				return fmt.Sprintf("buffered messages altered or out of order: Read %d returned %d bytes, the %d-byte message buffered at that position was expected", got, n, len(snap[got]))
+			}
+			if !c16MsgOK(buf[:n], ti, 1-side) {
+				return fmt.Sprintf("Read returns a foreign message: %d bytes that the peer never wrote on this tube", n)
+			}
+			got++
+			continue
+		}
+		if errors.Is(err, os.ErrDeadlineExceeded) {
+			return "" // a pending deadline set by the program takes precedence; not judged
+		}
+		if err != io.EOF {
+			return ""
+		}
+		if n > 0 {
+			return fmt.Sprintf("Read returns data together with end-of-stream: %d bytes", n)
+		}
+		if got < len(snap) {
+			return fmt.Sprintf("buffered data lost: %d messages were buffered unread but only %d were returned before end-of-stream", len(snap), got)
+		}
+		// end-of-stream is final
+		for k := 0; k < 4; k++ {
+			if n, _ := ut.Read(buf); n > 0 {
+				return fmt.Sprintf("data after end-of-stream: a Read returned a %d-byte message after an earlier Read had reported end-of-stream", n)
+			}
+		}
+		if len(snap) > 0 {
+			r.mu.Lock()
+			r.v.Label("unreliable-buffered-messages-drained-after-shutdown")
+			r.mu.Unlock()
+		}
+		return ""
+	}
+	return "Read never reports end-of-stream"
 }
 
 func (r *c16Run) pendingList() []string {
@@ -705,6 +854,19 @@ func c16Gen(t *rapid.T) c16Case {
 	c.Yields = rapid.SliceOfN(rapid.Custom(func(t *rapid.T) c16Yield {
 		return c16Yield{Point: rapid.IntRange(0, len(c16Points)-1).Draw(t, "pt"), Hit: rapid.IntRange(0, 5).Draw(t, "hit"), Us: rapid.SampledFrom([]int{0, 1, 100, 5000, 400000, 1200000}).Draw(t, "us")}
 	}), 0, 6).Draw(t, "yields")
+	for ti, tc := range c.Tubes {
+		for side := 0; side < 2; side++ {
+			cnt := rapid.SampledFrom([]int{0, 0, 0, 1, 2, 5, 20}).Draw(t, "preloadCount")
+			if cnt == 0 {
+				continue
+			}
+			n := rapid.SampledFrom([]int{1, 100, 3000}).Draw(t, "preloadN")
+			if !tc.Rel && rapid.Bool().Draw(t, "preloadBig") {
+				n = 32768
+			}
+			c.Preload = append(c.Preload, c16Pre{Tube: ti, Side: side, Count: cnt, N: n})
+		}
+	}
 	c.Graceful = rapid.IntRange(0, 2).Draw(t, "graceful") == 0
 	if c.Graceful {
 		c.DeadAtMs, c.FailSide, c.TimeoutMs = -1, -1, 0
